@@ -121,6 +121,10 @@ mod jobserver;
 pub mod logs;
 mod paths;
 mod state;
+#[cfg(feature = "verif")]
+pub mod verif;
+#[cfg(feature = "verif")]
+pub use state::verif_realdirpath;
 
 pub use deps::{is_dirty, Dirtiness, DirtyCallbacks, DirtyCallbacksBuilder};
 pub use env::*;
